@@ -49,6 +49,7 @@ if confirmed:
             results[c] = out.strip()
     finally:
         sh("git -C /repo checkout -- .")
+        sh("python3 /verif/tools/translate.py /repo /verif/coq/gen")
 dst = "/verif/seeded/%s-%s" % (pid, k)
 os.makedirs(dst, exist_ok=True)
 shutil.copy(src + "/patch.diff", dst + "/patch.diff")
